@@ -97,6 +97,8 @@ def explore(fn, max_paths=None):
         except Abort:
             continue
         except Undecided:
+            # an engine limit met on a path that was only entered because a feasibility query timed out: drop the path if it does not exist
+            if getattr(CUR.path, 'uncertain', False) and _recheck_feasible(CUR.path) == 'unsat': continue
             raise
         except Exception as e:       # an exception escaping the function under proof is an outcome
             import os, traceback
